@@ -8,6 +8,7 @@ import SquidModel.Properties.C23
 #print axioms SquidModel.C23.status_line_fields_extracted
 #print axioms SquidModel.C23.accepted_is_status_line
 #print axioms SquidModel.C23.accepted_status_range
+#print axioms SquidModel.C23.viable_prefix_never_rejected
 #print axioms SquidModel.C23.parse_response_status_ok
 #print axioms SquidModel.C23.non_magic_is_http09
 #print axioms SquidModel.C23.http09_only_without_magic
